@@ -20,9 +20,11 @@ pub enum Persona {
     RemovedLinger,
     /// mostly moves between existing nodes
     Shuffle,
+    /// one very deep path (hundreds of levels in large histories): append below the deepest node
+    Spine,
 }
 
-pub const PERSONAS: [Persona; 8] = [
+pub const PERSONAS: [Persona; 9] = [
     Persona::Balanced,
     Persona::Chains,
     Persona::Deep,
@@ -31,6 +33,7 @@ pub const PERSONAS: [Persona; 8] = [
     Persona::SubtreeBursts,
     Persona::RemovedLinger,
     Persona::Shuffle,
+    Persona::Spine,
 ];
 
 #[derive(Clone, Debug)]
@@ -137,6 +140,20 @@ impl Gen {
                     let c = live[rng.below(live.len())];
                     if m.depth(c) > m.depth(best) {
                         best = c;
+                    }
+                }
+                best
+            }
+            Persona::Spine if rng.chance(7, 8) => {
+                // the deepest live node (ties: the newest)
+                let mut best = live[live.len() - 1];
+                let mut bd = m.depth(best);
+                for _ in 0..6 {
+                    let c = live[live.len() - 1 - rng.below(live.len().min(12))];
+                    let d = m.depth(c);
+                    if d > bd {
+                        best = c;
+                        bd = d;
                     }
                 }
                 best
@@ -298,6 +315,7 @@ impl Gen {
             Persona::SubtreeBursts => [8, 30, 26, 3, 6, 14, 0, 0, 0, 0, 0],
             Persona::RemovedLinger => [8, 10, 40, 6, 18, 8, 0, 0, 0, 0, 0],
             Persona::Shuffle => [4, 6, 72, 8, 4, 2, 0, 0, 0, 0, 0],
+            Persona::Spine => [3, 70, 18, 1, 3, 1, 0, 0, 0, 0, 0],
         };
         if live.len() < 3 {
             w[0] += 30;
